@@ -330,7 +330,9 @@ def project(out, prop):
     if prop in ("C09", "C16"):
         return "|".join("%s@%s" % (ev_skeleton(e), ":".join(map(str, n[:5]))) for e, n in ops) + "||" + conn
     if prop == "C10":
-        return "|".join(":".join(map(str, [n[0]] + n[4:9])) if len(n) >= 9 else "?" for e, n in ops)
+        # + the assembled header tables (the documented caps on repeated / folded fields are part of the property)
+        import re as _re
+        return "|".join(":".join(map(str, [n[0]] + n[4:9])) if len(n) >= 9 else "?" for e, n in ops) + "||" + ";".join(_re.findall(r"(?:RH|SH)=\[[^\]]*\]", fin))
     if prop == "C05":
         prog = ";".join("%s/%s" % (field(d, "rp"), field(d, "sp")) for d in fin.split(";")[1:] if d != "N")
         return "|".join(ev_skeleton(e) for e, n in ops) + "||" + prog
